@@ -169,6 +169,25 @@ PolyWordAt(j) ==
                          IN  [q \in 1..Len(tw) |-> [op |-> "mnemonic.parse", in |-> [text |-> phraseOf(w, Utf8ToStr(tw[q]))]]]
   IN  MItem("seq", "polynomial_hash_twins", [steps |-> Concat([q \in 1..PolyWordsPer |-> stepsOf(ws[q])])])
 
+\* every list word EXTENDED and SHORTENED, as the FIRST word of a 12-word phrase that is valid with the word itself: the
+\* word + s, + x, + its own last letter, + NUL; the word without its last letter; its first four letters (the list is
+\* unique in them - some wallets complete such prefixes, this one must not: an unknown word is refused); the word twice.
+\* A lookup that truncates or pads its key (8 bytes, a fixed-width field) takes one of them for the word.  Histories of 16 words.
+ExtWordsPer == 16
+NExtWords == 2048 \div ExtWordsPer
+ExtVariants(wb) ==
+  LET n == Len(wb) IN
+  SelectSeq(<<wb \o <<115>>, wb \o <<120>>, wb \o <<wb[n]>>, wb \o <<0>>, SubSeq(wb, 1, n - 1), Take(wb, 4), wb \o wb>>,
+            LAMBDA v : ~IsWord(v))
+ExtWordAt(j) ==
+  LET phraseOf(w, tok) ==
+        LET ent == <<w \div 8, (w % 8) * 32>> \o Zeros(14)
+            idx == IdxOfEntropy(ent)
+        IN  tok \o " " \o JoinWith(SubSeq(idx, 2, 12), " ")
+      stepsOf(w) == LET vs == ExtVariants(StrToUtf8(Words[w + 1]))
+                    IN  [q \in 1..Len(vs) |-> [op |-> "mnemonic.parse", in |-> [text |-> phraseOf(w, Utf8ToStr(vs[q]))]]]
+  IN  MItem("seq", "word_extensions", [steps |-> Concat([q \in 1..ExtWordsPer |-> stepsOf((j - 1) * ExtWordsPer + q - 1)])])
+
 \* requested lengths that ALIAS a supported length when the number - or the number times 4 / 32 / 11, the scalings the
 \* arithmetic of a generator uses - is truncated to 8, 16, 32 or 64 bits: L + k 2^j for j in {8, 16, 31, 32, 59, 61, 62, 63}
 AliasPows == <<8, 16, 31, 32, 59, 61, 62, 63>>
